@@ -33,7 +33,7 @@ namespace fastscapelib
             {
                 std::unique_lock<std::mutex> lk(m_cv_m);
                 ++m_paused_count;
-                m_cv.wait(lk);
+                m_cv.wait(lk, [this] { return m_resume_requested; });
                 --m_paused_count;
             };
     }
@@ -71,6 +71,10 @@ namespace fastscapelib
         if (!m_paused)
         {
             wait();
+            {
+                std::lock_guard<std::mutex> lk(m_cv_m);
+                m_resume_requested = false;
+            }
             set_tasks(m_pause_jobs);
             run_tasks();
             m_paused = true;
@@ -88,6 +92,10 @@ namespace fastscapelib
     {
         if (m_paused)
         {
+            {
+                std::lock_guard<std::mutex> lk(m_cv_m);
+                m_resume_requested = true;
+            }
             m_cv.notify_all();
             m_paused = false;
             wait();
